@@ -44,6 +44,16 @@ class SelectorList(cssutils.util.Base, cssutils.util.ListSeq):
 
         self._readonly = readonly
 
+    def __delitem__(self, index):
+        """Delete the selector at `index`.
+
+        :exceptions:
+            - :exc:`~xml.dom.NoModificationAllowedErr`:
+              Raised if this list is readonly.
+        """
+        self._checkReadonly()
+        super().__delitem__(index)
+
     def __repr__(self):
         if self._namespaces:
             st = (self.selectorText, self._namespaces)
